@@ -307,7 +307,7 @@ func (p *Program) ApplyEdit(hasAddFile, hasDelFile bool) *Edit {
 		f.Includes = append(f.Includes, j)
 		return &Edit{kind, false, fmt.Sprintf("%s now includes %s", f.RelPath(), p.Files[j].RelPath())}
 	case "add-file":
-		if hasAddFile || hasDelFile {
+		if hasAddFile {
 			return nil
 		}
 		nf := &File{Index: len(p.Files), Dir: f.Dir, Base: fmt.Sprintf("extra%d", len(p.Files))}
@@ -319,7 +319,7 @@ func (p *Program) ApplyEdit(hasAddFile, hasDelFile bool) *Edit {
 		f.Includes = append(f.Includes, nf.Index)
 		return &Edit{"add-file", false, fmt.Sprintf("new file %s included by %s", nf.RelPath(), f.RelPath())}
 	case "delete-file":
-		if hasAddFile || hasDelFile || f.Index == 0 {
+		if hasDelFile || f.Index == 0 {
 			return nil
 		}
 		f.Deleted = true
